@@ -3,7 +3,6 @@ every exported terminal state through IVectorMachine.project / transform and the
 e_step / m_step."""
 import itertools
 import json
-import os
 from fractions import Fraction as F
 
 import numpy as np
@@ -14,7 +13,7 @@ from .common import allclose, tla, tla_rat
 INVARIANTS = ["ProjectionSolvesSystem", "ZeroFramesGiveZero", "PosteriorCovIsInverse", "MStepSolvesNormalEq",
               "SigmaAboveFloor", "AllFinite", "AffineInvariant"]
 DEVIATION = "IVECTOR_SIGMA_DIV_ZERO_COUNT"
-BW, BA = 60, 4000     # scope of the 32-bit model (see EScope / MScope in the module)
+BW, BA, BT = 60, 600, 2000     # scope of the 32-bit model (see EScope / MScope in the module)
 
 
 # ------------------------------------------------------------------ scenario domains
@@ -49,15 +48,6 @@ def stat_pool(C, D, xvals, rvals, max_points=2):
                 seen.add(key)
                 pool.append(st)
     return pool
-
-
-def scn_json(s):
-    return {"m": [[q(v) for v in row] for row in s["m"]],
-            "T": [[[q(v) for v in vec] for vec in row] for row in s["T"]],
-            "sg": [[q(v) for v in row] for row in s["sg"]],
-            "upd": bool(s["upd"]),
-            "stats": [{"n": [q(v) for v in st["n"]], "f": [[q(v) for v in row] for row in st["f"]],
-                       "s": [[q(v) for v in row] for row in st["s"]]} for st in s["stats"]]}
 
 
 def _fr(v):
@@ -97,9 +87,10 @@ def product_domain(C, D, Rt, mvals, tvals, sgvals, statlists):
 
 # ------------------------------------------------------------------ TLC
 def model_run(ck, name, C, D, Rt, floor, affs, scenarios=None, domain=None, dev=(), export=True,
-              expect_violation=False, invariants=INVARIANTS, coverage=False, workers=16, bw=BW, ba=BA):
-    """One exhaustive TLC run of IVector over the given scenarios (an explicit list, handed over as a JSON
-    file, or a TLA+ set expression); returns the records exported at the terminal states."""
+              expect_violation=False, invariants=INVARIANTS, coverage=False, workers=16, bw=BW, ba=BA, bt=BT, _retry=0):
+    """One exhaustive TLC run of IVector over the given scenarios (an explicit list, written into the MC module,
+    or a TLA+ set expression such as product_domain); returns the records exported at the terminal states
+    (phase "m", or the phase at which the scenario leaves the 32-bit scope)."""
     root = "MC_IVector"
     if scenarios is not None:
         dom = mc.Expr("{" + ",\n  ".join(tla(scn_tla(s)) for s in scenarios) + "}")
@@ -110,10 +101,174 @@ def model_run(ck, name, C, D, Rt, floor, affs, scenarios=None, domain=None, dev=
             "MC_Affs": mc.Expr("{" + ", ".join("<<%s, %s>>" % (tla_rat(a), tla_rat(b)) for a, b in affs) + "}"),
             "MC_Dev": mc.Expr("{" + ", ".join('"%s"' % d for d in dev) + "}")}
     text = mc.module(root, ["IVector"], defs)
-    cfg = mc.cfg(consts={"C": C, "D": D, "Rt": Rt, "Bw": bw, "Ba": ba},
+    cfg = mc.cfg(consts={"C": C, "D": D, "Rt": Rt, "Bw": bw, "Ba": ba, "Bt": bt},
                  subst={"Scenarios": "MC_Scenarios", "Floor": "MC_Floor", "Affs": "MC_Affs", "Dev": "MC_Dev"},
                  invariants=invariants, constraints=["Export"] if export else [])
-    r = tlc.run(ck.work, root, cfg, root_text=text, workers=workers, coverage=coverage,
-                expect_violation=expect_violation)
+    try:
+        r = tlc.run(ck.work, root, cfg, root_text=text, workers=workers, coverage=coverage,
+                    expect_violation=expect_violation)
+    except tlc.MachineryError as e:
+        # a scenario left the 32-bit range although it passed the scope guards: never a verdict; the same
+        # scenarios are run once more in a tighter scope (more of them stop at the projection / the E-step)
+        if "Overflow when computing" not in str(e) or _retry >= 2:
+            raise
+        ck.notes.append("TLC run %s overflowed 32-bit integers with scope (%d, %d, %d); repeated with a tighter scope"
+                        % (name, bw, ba, bt))
+        return model_run(ck, name, C, D, Rt, floor, affs, scenarios=scenarios, domain=domain, dev=dev, export=export,
+                         expect_violation=expect_violation, invariants=invariants, coverage=coverage,
+                         workers=workers, bw=max(bw // 2, 4), ba=max(ba // 3, 8), bt=max(bt // 3, 8), _retry=_retry + 1)
     ck.account(name, r, expect_violation=expect_violation)
     return r.records
+
+
+# ------------------------------------------------------------------ the implementation side
+def fval(x):
+    return float(F(x[0], x[1]))
+
+
+def arr(v):
+    """nested lists of [num, den] -> float array"""
+    def conv(u):
+        if isinstance(u, list) and len(u) == 2 and all(isinstance(x, int) for x in u):
+            return fval(u)
+        return [conv(x) for x in u]
+    return np.array(conv(v), dtype=float)
+
+
+def make_machine(em, m, T, sg, Rt, floor, upd):
+    """An IVectorMachine in the given current state: UBM means m, total-variability matrix T (c,d,t),
+    covariances sg (c,d)."""
+    m, T, sg = np.asarray(m, dtype=float), np.asarray(T, dtype=float), np.asarray(sg, dtype=float)
+    C, D = m.shape
+    ubm = em.GMMMachine(C)
+    ubm.means = m.copy()
+    ubm.variances = sg.copy()
+    mach = em.IVectorMachine(ubm, dim_t=Rt, max_iterations=1, update_sigma=bool(upd), variance_floor=float(floor))
+    mach.dim_c, mach.dim_d = C, D
+    mach.T = T.copy()
+    mach.sigma = sg.copy()
+    return mach
+
+
+def make_stats(em, n, f, s):
+    n, f, s = np.asarray(n, dtype=float), np.asarray(f, dtype=float), np.asarray(s, dtype=float)
+    st = em.GMMStats(f.shape[0], f.shape[1])
+    st.t = int(np.ceil(n.sum()))
+    st.n = n.copy()
+    st.sum_px = f.copy()
+    st.sum_pxx = s.copy()
+    return st
+
+
+def affine(m, T, sg, stats, a, b):
+    """features x -> a x + b"""
+    return (a * m + b, a * T, a * a * sg,
+            [(n, a * f + b * n[:, None], a * a * s + 2 * a * b * f + b * b * n[:, None]) for n, f, s in stats])
+
+
+def replay(ck, em, rec, Rt, floor, affs, label):
+    """Replays one exported terminal state: project / transform on every statistic, the module-level
+    e_step on the list, the module-level m_step on its result; after every step the code must be at the
+    value TLC printed.  Components without data (exported mask `nodata`) are compared relationally:
+    any finite T, any finite covariance >= floor."""
+    from bob.learn.em.ivector import e_step, m_step
+    scn = rec["scn"]
+    m, T, sg = arr(scn["m"]), arr(scn["T"]), arr(scn["sg"])
+    stats = [(arr(st["n"]), arr(st["f"]), arr(st["s"])) for st in scn["stats"]]
+    upd = scn["upd"]
+    flo = float(floor)
+    ck.replayed += 1
+    ck.seen([label, scn])
+    info = {"mechanism": "M2", "module": "IVector", "config": label, "variance_floor": flo, "dim_t": Rt,
+            "floor_exact": q(floor), "record": rec,
+            "scenario": {"ubm_means": m.tolist(), "T": T.tolist(), "sigma": sg.tolist(), "update_sigma": upd,
+                         "stats": [{"n": n.tolist(), "sum_px": f.tolist(), "sum_pxx": s.tolist()} for n, f, s in stats]}}
+
+    def bad(clause, detail, known=False):
+        rep = dict(info)
+        rep["detail"] = detail
+        if known:
+            ck.finding("D6", "M2:IVector:" + clause, rep)
+        else:
+            ck.violation("M2:IVector:" + clause, rep)
+        return clause
+
+    def attempt(what, fn):
+        try:
+            return True, fn()
+        except Exception as e:          # the property quantifies over these inputs: raising is a failure
+            bad("AllFinite", "%s raised %s: %s" % (what, type(e).__name__, e))
+            return False, None
+
+    # ---- Project / transform
+    exp_w = arr(rec["w"])
+    mach = make_machine(em, m, T, sg, Rt, flo, upd)
+    gs = [make_stats(em, *st) for st in stats]
+    for i, g in enumerate(gs):
+        ok, w = attempt("project(stats[%d])" % i, lambda: np.asarray(mach.project(g), dtype=float))
+        if not ok:
+            return "raised"
+        if w.shape != (Rt,) or not allclose(w, exp_w[i]):
+            zero = not np.any(stats[i][0])
+            return bad("ZeroFramesGiveZero" if zero else "ProjectionSolvesSystem",
+                       "project(stats[%d]): expected %s, observed %s" % (i, exp_w[i].tolist(), w.tolist()))
+    ok, ws = attempt("transform", lambda: mach.transform(gs))
+    if not ok:
+        return "raised"
+    if len(ws) != len(gs) or any(np.asarray(x).shape != (Rt,) or not allclose(x, e) for x, e in zip(ws, exp_w)):
+        return bad("ProjectionSolvesSystem", "transform(list): expected %s, observed %s"
+                   % (exp_w.tolist(), [np.asarray(x).tolist() for x in ws]))
+    # the same i-vectors after an affine map of the feature space (TLC: AffineInvariant)
+    for a, b in affs:
+        m2, T2, sg2, st2 = affine(m, T, sg, stats, float(a), float(b))
+        mach2 = make_machine(em, m2, T2, sg2, Rt, flo, upd)
+        for i, st in enumerate(st2):
+            ok, w = attempt("project (features mapped)", lambda: np.asarray(mach2.project(make_stats(em, *st)), dtype=float))
+            if not ok:
+                return "raised"
+            if not allclose(w, exp_w[i]):
+                return bad("AffineInvariant", "features x -> %s x + %s: project(stats[%d]) expected %s, observed %s"
+                           % (a, b, i, exp_w[i].tolist(), w.tolist()))
+    if rec["phase"] == "p":
+        return "ok"
+    # ---- EStep
+    acc = rec["acc"]
+    ok, es = attempt("e_step", lambda: e_step(mach, gs))
+    if not ok:
+        return "raised"
+    for name, attr, exp in (("N E[ww']", "nij_sigma_wij2", arr(acc["nww"])), ("Fnorm E[w]'", "fnorm_sigma_wij", arr(acc["fw"])),
+                            ("Snorm", "snormij", arr(acc["sn"])), ("N", "nij", arr(acc["n"]))):
+        obs = np.asarray(getattr(es, attr), dtype=float)
+        if obs.shape != exp.shape or not allclose(obs, exp):
+            return bad("EStepAccumulators", "e_step accumulator %s (%s): expected %s, observed %s"
+                       % (name, attr, exp.tolist(), obs.tolist()))
+    if not (np.array_equal(mach.T, T) and np.array_equal(mach.sigma, sg)):
+        return bad("EStepAccumulators", "e_step changed the machine")
+    if rec["phase"] == "e":
+        return "ok"
+    # ---- MStep
+    exp_T, exp_sg = arr(rec["newT"]), arr(rec["newSg"])
+    nodata = np.array(rec["nodata"], dtype=bool)
+    ok, _ = attempt("m_step", lambda: m_step(mach, es))
+    if not ok:
+        return "raised"
+    oT, osg = np.asarray(mach.T, dtype=float), np.asarray(mach.sigma, dtype=float)
+    if oT.shape != exp_T.shape or osg.shape != exp_sg.shape:
+        return bad("MStepSolvesNormalEq", "shapes after m_step: T %s sigma %s" % (oT.shape, osg.shape))
+    sig_d6 = bool(upd and nodata.any() and np.all(np.isnan(osg[nodata])) and np.all(np.isfinite(osg[~nodata])))
+    if not np.all(np.isfinite(oT)) or not np.all(np.isfinite(osg)):
+        return bad("AllFinite", "after m_step: T %s, sigma %s (components without data: %s)"
+                   % (oT.tolist(), osg.tolist(), nodata.tolist()), known=sig_d6)
+    if upd and np.any(osg < flo):
+        return bad("SigmaAboveFloor", "after m_step: sigma %s below the floor %s; expected %s"
+                   % (osg.tolist(), flo, exp_sg.tolist()))
+    if not allclose(oT[~nodata], exp_T[~nodata]):
+        return bad("MStepSolvesNormalEq", "after m_step: T expected %s, observed %s" % (exp_T.tolist(), oT.tolist()))
+    if upd:
+        if not allclose(osg[~nodata], exp_sg[~nodata]):
+            return bad("SigmaUpdate", "after m_step: sigma expected %s, observed %s" % (exp_sg.tolist(), osg.tolist()))
+    elif not allclose(osg, sg, 1e-15):
+        return bad("SigmaUpdate", "update_sigma off but sigma changed: %s -> %s" % (sg.tolist(), osg.tolist()))
+    ck.sample({"mechanism": "M2", "config": label, "scenario": info["scenario"],
+               "expected": {"w": exp_w.tolist(), "T": exp_T.tolist(), "sigma": exp_sg.tolist()}, "verdict": "ok"})
+    return "ok"
